@@ -441,6 +441,16 @@ def compare_flag_rule(ctx, chk, unit, m, fn, s, size, where):
     inner = ("pos", b.mod(H).sub(a.mod(H)).simplify(ranges))
     spec = {"CF": cf, "AF": ("pos", b.mod(16).sub(a.mod(16)).simplify(ranges)), "OF": ("xor",) + tuple(sorted((inner, cf), key=repr)),
             "SF": ("pos", val.sub(Lin(H - 1)).simplify(ranges)), "ZF": ("zero", val.simplify(ranges))}
+    if FBIT["PF"] in decided:
+        from rules_c01 import parity_verdict
+        pv, ppol = decided[FBIT["PF"]]
+        k_, t_ = parity_verdict(ctx, s, pv, ppol, val, ranges)
+        if k_ == "ok":
+            chk.ok("C07.R9", f"{unit}:PF", t_)
+        elif k_ == "bad":
+            chk.violation("C07.R9", unit, "PF-formula", f"{fn['name']}: {t_}", where)
+        else:
+            chk.undecided_("C07.R9", f"{unit}:PF", t_)
     for f in ("CF", "AF", "OF", "SF", "ZF"):
         u = f"{unit}:{f}"
         if FBIT[f] not in decided:
